@@ -88,6 +88,11 @@ impl Rng {
         weights.len() - 1
     }
 
+    pub fn bytes_upto(&mut self, n: usize) -> Vec<u8> {
+        let k = self.below(n.max(1));
+        self.bytes(k)
+    }
+
     pub fn bytes(&mut self, n: usize) -> Vec<u8> {
         let mut v = Vec::with_capacity(n);
         while v.len() < n {
